@@ -1,7 +1,7 @@
 --------------------------- MODULE Judge_WriterMech -------------------------
-(* Binding layer, conformance judge for the Mech model of the CSV and HTML   *)
-(* writers: for every C09 scenario in one of the two formats whose rows come *)
-(* in a defined order, the characters the binary wrote are exactly what      *)
+(* Binding layer, conformance judge for the Mech model of the CSV, HTML and  *)
+(* JSON writers: for every C09 scenario in one of these formats whose rows   *)
+(* come in a defined order, the characters the binary wrote are exactly what      *)
 (* WriterMech writes for the table that the `into list` run of the same      *)
 (* query shows.  A difference is DRIFT, not a verdict.                       *)
 EXTENDS WriterMech, TLC, Json, IOUtils
@@ -11,8 +11,9 @@ VARIABLE l
 Verdict(r) ==
   LET ref == DecodeList(r.obs.list.chars, r.nul, r.ncols)
       out == r.obs.f.chars
-      covered == r.fmt \in {"csv", "html"} /\ r.path # "grouped" /\ ref.ok /\ ~r.obs.f.timed_out /\ ~r.obs.f.panic /\ r.obs.f.status = 0
-      want == IF r.fmt = "csv" THEN CsvMech(ref.rows) ELSE HtmlMech(ref.rows)
+      covered == r.fmt \in {"csv", "html", "json"} /\ r.path # "grouped" /\ ref.ok /\ ~r.obs.f.timed_out /\ ~r.obs.f.panic /\ r.obs.f.status = 0
+      want == CASE r.fmt = "csv" -> CsvMech(ref.rows) [] r.fmt = "html" -> HtmlMech(ref.rows)
+                [] r.fmt = "json" -> JsonMech([i \in 1 .. Len(r.keys) |-> JsonKey(r.path, r.keys[i])], ref.rows, r.ctl)
       y == IF ~covered THEN "ok" ELSE IF out = want THEN "ok" ELSE "writer-model-drift"
   IN [id |-> r.id, ok |-> (y = "ok"), class |-> r.class, why |-> y, key |-> "mech/" \o r.class \o "/" \o y, nontrivial |-> (covered /\ ref.rows # <<>>)]
 Init == l = 1
